@@ -7,7 +7,7 @@ import copy
 import datetime
 import decimal
 
-from . import common, gen, values, walker
+from . import valuestate, common, gen, values, walker
 from autobean_refactor import models
 from autobean_refactor.models import base as mbase, internal, meta_value_internal, meta_item_internal
 from autobean_refactor.models.internal import properties as props, value_properties as vprops
@@ -231,13 +231,16 @@ def _slices(r, n):
 
 
 def _ext_slices(r):
-    return r.choice([slice(None, None, 2), slice(1, None, 2), slice(None, None, -1), slice(None, None, 3), slice(None, 0, -1)])
+    return r.choice([slice(None, None, 2), slice(1, None, 2), slice(None, None, -1), slice(None, None, 3), slice(None, 0, -1),
+                     slice(None, None, 2), slice(None, None, -1),
+                     # negative steps whose range is empty or clipped (range(n)[-10::-1] is range(-1, -1, -1))
+                     slice(-10, None, -1), slice(-10, -20, -1), slice(-10, None, -2), slice(1, None, -1), slice(-2, None, -2), slice(0, None, -1)])
 
 
 class Generator:
     """Draws operations applicable to the *current* state of a document."""
 
-    def __init__(self, corpus, r, syntax_only=False, invalid_rate=0.0, index_mode='grid', allow_cost=True, kinds=None):
+    def __init__(self, corpus, r, syntax_only=False, invalid_rate=0.0, index_mode='grid', allow_cost=True, kinds=None, prime=None):
         self.corpus, self.r = corpus, r
         self.syntax_only = syntax_only
         self.invalid_rate = invalid_rate
@@ -245,6 +248,9 @@ class Generator:
         self.allow_cost = allow_cost
         self.kinds = kinds
         self.counter = 0
+        # three generators in ten read every public attribute of every model before each operation: whatever the library caches
+        # behind its views and getters is then cached when the edit arrives
+        self.prime = r.random() < 0.3 if prime is None else prime
 
     # --- helpers ---------------------------------------------------------------------------------
     def fresh_name(self):
@@ -260,6 +266,11 @@ class Generator:
 
     def next_op(self, root, tries=12):
         r = self.r
+        if self.prime:
+            try:
+                valuestate.value_state(root)
+            except Exception:
+                pass        # a getter that fails on the current tree is some check's finding, not the generator's
         groups = collections.defaultdict(list)
         for path, m in self.targets(root):
             if isinstance(m, models.CostSpec) and not self.allow_cost:
@@ -515,8 +526,23 @@ class Generator:
                     if len(cur) != len(ref) or any(x is not y for x, y in zip(cur, ref)):
                         return f'after assigning the whole list, {a} does not hold the assigned elements'
                     return None
-                o = Op(f'{k}:assign', f'{path}.{a} = deepcopy(<{a} of another {type(m).__name__}, {len(ref)} elements>)', m, path,
-                       lambda: list(getattr(m, a)), lambda: setattr(m, a, new), attr=a, list_check=lc, donors=ref)
+                alias = copy.deepcopy(ref[-1]) if r.random() < 0.5 and self._fits_indented_list(a, ref[-1]) else None
+
+                def apply():
+                    setattr(m, a, new)
+                    if alias is not None:
+                        # the assigned object stays an alias of the model's list: an edit through it is an edit of the model, seen by
+                        # every view of the list (which are read, i.e. built, first)
+                        try:
+                            valuestate.value_state(m)
+                        except Exception:
+                            pass
+                        new.append(alias)
+                if alias is not None:
+                    ref.append(alias)
+                o = Op(f'{k}:assign', f'{path}.{a} = deepcopy(<{a} of another {type(m).__name__}, {len(ref)} elements>)' +
+                       ('; then append through the assigned object' if alias is not None else ''), m, path,
+                       lambda: list(getattr(m, a)), apply, attr=a, list_check=lc, donors=ref)
                 o.list_attr = a
                 return o
         return self._list_op(path, m, a, k, w, op, lambda types=None, attached=False: self._pool_item(m, a, types, attached),
@@ -529,7 +555,7 @@ class Generator:
                     'postings': 'raw_postings_with_comments', 'raw_postings': 'raw_postings_with_comments',
                     'raw_meta': 'raw_meta_with_comments'}[a]
         types = w._raw_type if hasattr(w, '_raw_type') else None
-        ops = ['append', 'insert', 'pop', 'delint', 'setint', 'setslice', 'delslice', 'extend', 'clear', 'setext', 'delext', 'remove']
+        ops = ['append', 'insert', 'pop', 'delint', 'setint', 'setslice', 'delslice', 'extend', 'clear', 'setext', 'delext', 'remove', 'iadd']
         op = r.choice(ops)
         return self._list_op(path, m, a, k, w, op,
                              lambda t=None, attached=False: self._pool_item(m, raw_attr, types, attached), identity=True,
@@ -636,7 +662,16 @@ class Generator:
                 if vals is None:
                     return None
                 desc += f' k={kk} n={n}'
-                apply = lambda: w.__iadd__(vals)
+                if r.random() < 0.5:
+                    apply = lambda: w.__iadd__(vals)
+                else:
+                    # `model.attr += vals` as Python executes it: read, extend in place, assign the result back through the property
+                    desc += ' (attribute form)'
+
+                    def apply():
+                        v = getattr(m, a)
+                        v += vals
+                        setattr(m, a, v)
                 ref.extend(vals)
             elif op == 'clear':
                 invalid = None
@@ -743,7 +778,7 @@ class Generator:
                 return self.fresh_name()
             return r.choice(['s' + self.fresh_name(), datetime.date(2001, 2, r.randint(1, 28)), True, False,
                              models.Account.from_value('Assets:V')] + ([] if self.syntax_only else [D(r.randint(1, 99))]))
-        op = r.choice(['append', 'insert', 'pop', 'delint', 'setint', 'extend', 'remove', 'clear', 'delslice', 'setslice', 'discard'])
+        op = r.choice(['append', 'insert', 'pop', 'delint', 'setint', 'extend', 'remove', 'clear', 'delslice', 'setslice', 'setslice', 'discard', 'iadd'])
         idx = self._index(n)
         ref = list(w)
         desc = f'{path}.{a}.{op}'
@@ -778,6 +813,15 @@ class Generator:
                 vs = [mk(), mk()]
                 apply = lambda: w.extend(vs)
                 ref.extend(vs)
+            elif op == 'iadd':
+                vs = [mk(), mk()][:r.randint(0, 2)]
+                desc += f' {vs!r} (attribute form)'
+
+                def apply():        # `model.tags += vs` as Python executes it
+                    v = getattr(m, a)
+                    v += vs
+                    setattr(m, a, v)
+                ref.extend(vs)
             elif op == 'remove':
                 if not ref:
                     return None
@@ -796,12 +840,14 @@ class Generator:
                 apply = lambda: w.clear()
                 ref.clear()
             elif op == 'delslice':
-                sl = r.choice([slice(0, 1), slice(1, None), slice(None, None, 2), slice(-2, None), slice(0, 0)])
+                sl = r.choice([slice(0, 1), slice(1, None), slice(None, None, 2), slice(-2, None), slice(0, 0),
+                               slice(None, None, -1), slice(-10, None, -1), slice(-10, None, -2), slice(1, None, -1)])
                 apply = lambda: w.__delitem__(sl)
                 desc += f'[{sl.start}:{sl.stop}:{sl.step}] n={n}'
                 del ref[sl]
             elif op == 'setslice':
-                sl = r.choice([slice(0, 1), slice(1, 2), slice(None, None, 2), slice(-1, None), slice(0, 2)])
+                sl = r.choice([slice(0, 1), slice(1, 2), slice(None, None, 2), slice(-1, None), slice(0, 2),
+                               slice(None, None, -1), slice(-10, None, -1), slice(-10, -20, -1), slice(-10, None, -2), slice(1, None, -1)])
                 size = len(ref[sl])
                 cnt = size if r.random() < 0.8 else size + 1
                 vs = [mk() for _ in range(cnt)]
@@ -914,7 +960,15 @@ class Generator:
         elif op == 'update':
             k1, k2 = 'k' + self.fresh_name(), (r.choice(keys) if keys else 'k' + self.fresh_name())
             d = {k1: mv(k1), k2: mv(k2)}
-            apply = lambda: result.append(w.update(d))
+            if not raw and r.random() < 0.4:
+                # the argument is the meta mapping of another entry (plain values only: nodes of that entry would be attached)
+                other = common.parser().parse(f'2000-01-01 close Assets:X\n    {k1}: "a {k1}"\n    {k2}: {r.randint(1, 99)}', models.Close)
+                arg = other.meta
+                d = dict(arg.items())
+                desc += ' <meta of another entry>'
+            else:
+                arg = d
+            apply = lambda: result.append(w.update(arg))
             exp_keys = keys + [k for k in d if k not in keys]
             stored = list(d.items())
             desc += f'({list(d)!r})'
@@ -1133,4 +1187,46 @@ def pingpong_ops(root, r, nsteps=10):
         out.append(o)
         if r.random() < 0.85:
             out.append(Op('claim:pingpong', f'[{where}] ' + name.format('unclaim'), root, '$', lambda: [], unclaim))
+    return out
+
+
+def multi_comment_ops(root, r):
+    """Puts two or three *separate* comment tokens into the gap between a transaction's meta list and its postings list through the
+    API (consecutive comment lines never leave the parser as separate tokens), lets the two lists release and take them in turn, and
+    ends with a deletion from one of the lists. Returns a list of Op (claim calls that find nothing raise nothing; a refusal is a
+    ValueError the caller may ignore)."""
+    cands = [(p, m) for p, m in walker.tree_models(root) if isinstance(m, models.Transaction)]
+    if not cands:
+        return []
+    p, t = r.choice(cands)
+    metaw, postw = t.raw_meta_with_comments, t.raw_postings_with_comments
+    first = next((x for x in list(metaw) + list(postw) if hasattr(x, 'indent')), None)
+    ind = (first.indent if first is not None else '') or '    '
+    cs = [models.BlockComment.from_value(f'handed over {i}', indent=ind) for i in range(r.randint(2, 3))]
+    from_meta = r.random() < 0.6
+    src, dst = (metaw, postw) if from_meta else (postw, metaw)
+    sname, dname = ('meta', 'postings') if from_meta else ('postings', 'meta')
+    out = []
+
+    def op(desc, fn):
+        out.append(Op('claim:multi', f'[{p}] {desc}', root, '$', lambda: [], fn))
+    for i, c in enumerate(cs):
+        if from_meta:
+            op(f'{sname} list: append comment #{i}', lambda c=c: src.append(c))
+        else:
+            op(f'{sname} list: insert comment #{i} at {i}', lambda c=c, i=i: src.insert(i, c))
+    op(f'{sname} list: unclaim the {len(cs)} comments', lambda: src.unclaim_interleaving_comments(cs))
+    op(f'{dname} list: claim_interleaving_comments()', dst.claim_interleaving_comments)
+    if r.random() < 0.5:
+        op(f'{dname} list: unclaim_interleaving_comments()', dst.unclaim_interleaving_comments)
+        op(f'{sname} list: claim_interleaving_comments()', src.claim_interleaving_comments)
+    last = r.choice(['clear-dst', 'clear-src', 'pop-dst', 'auto'])
+    if last == 'clear-dst':
+        op(f'{dname} list: clear()', dst.clear)
+    elif last == 'clear-src':
+        op(f'{sname} list: clear()', src.clear)
+    elif last == 'pop-dst':
+        op(f'{dname} list: pop(0)', lambda: dst.pop(0) if len(dst) else None)
+    else:
+        op('transaction.auto_claim_comments()', t.auto_claim_comments)
     return out
